@@ -204,7 +204,7 @@ def run_stream(case):
 lookbacks_st = st.lists(st.one_of(st.integers(1, 6), st.integers(1, 30), st.sampled_from([1, 2, 12, 21])),
                         min_size=1, max_size=4, unique=True)
 sprice = st.one_of(st.floats(1, 500).map(lambda x: float('%.6g' % x)), st.floats(0.01, 1.0).map(lambda x: float('%.3g' % x)),
-                   st.sampled_from([0.01, 1.0, 7.0, 7.0]))
+                   st.sampled_from([0.01, 1.0, 7.0, 7.0, 0.0022, 0.004, 0.00049]))
 
 
 @st.composite
@@ -262,7 +262,7 @@ def _verify_sess(case, r, label):
     days = cal.bdays(d0, d1)
     adjust = cfg.get('adjust', True)
     obs = {'EQ:' + s: observations(rows, adjust) for s, rows in mk.items()}
-    ucfg = cfg['universe']
+    ucfg = cfg.get('signal_universe') or cfg['universe']      # the universe the signals watch
     entry = {}
     if ucfg['kind'] == 'static':
         for a in ucfg['assets']:
@@ -345,6 +345,10 @@ def sessions(draw):
     if a['kind'] == 'invvol' and a['lookback'] not in sig['vol']:
         sig['vol'].append(a['lookback'])
     cfg['signals'] = sig
+    if a['kind'] == 'fixed' and cfg['universe']['kind'] == 'dynamic' and draw(st.booleans()):
+        # the signals watch every symbol from the start, whatever the traded universe contains at the time
+        cfg['signal_universe'] = {'kind': 'static', 'assets': ['EQ:' + s for s in names]}
+        lab = lab + ['signals_watch_a_wider_universe']
     return {'cfg': cfg, 'market': mk, 'labels': lab + (['gappy_market'] if gappy else ['dense_market']),
             'rerun_shared': draw(st.booleans())}
 
